@@ -709,7 +709,7 @@ def c16(run):
         for want in (("scanner",), ("scanner", "header"), ("scanner", "tables"), ("scanner", "backup"), ("scanner", "header", "tables", "backup")):
             jobs.append(dict(kind="valid", name=name, text=text, args=[], want=want, faults={}))
             for k in want:
-                for mode in ("devfull", "nodir") + (("rlimit",) if k == "scanner" and len(want) == 1 else ()):
+                for mode in ("devfull", "nodir") + (("rlimit", "rlimitsig", "m4killed") if k == "scanner" and len(want) == 1 else ()):
                     jobs.append(dict(kind="fault", name=name, text=text, args=[], want=want, faults={k: mode}))
         jobs.append(dict(kind="fault", name=name, text=text, args=[], want=("scanner",), faults={"scanner": "devfull"}, stdout_scanner=True))
     # (b) valid input x option sets
